@@ -8,8 +8,12 @@ if HERE not in sys.path:
 
 # One stable hash seed for every interpreter the harness starts (nothing depends on it; the
 # determinism self-test re-runs samples under a different value to prove that).
-if os.environ.get("PYTHONHASHSEED") is None:
-    os.environ["PYTHONHASHSEED"] = "0"
+if os.environ.get("PYTHONHASHSEED") is None or os.environ.get("OMP_NUM_THREADS") != "1":
+    os.environ.setdefault("PYTHONHASHSEED", "0")
+    # one torch thread per worker process: parallelism comes from the process pool (and thread count must not be a
+    # source of nondeterminism)
+    os.environ["OMP_NUM_THREADS"] = "1"
+    os.environ["MKL_NUM_THREADS"] = "1"
     os.execv(sys.executable, [sys.executable] + sys.argv)
 
 from sim.core import import_torchsde  # noqa: E402
